@@ -492,6 +492,15 @@ func c12GenOpt(t *rapid.T, kind string, pool []string) vOpt {
 	return vOpt{Kind: "raw"}
 }
 
+// c12Foreign: what another router sends need not obey the rules our own configuration parser enforces - one
+// prefix option in three gets a preferred lifetime drawn without regard to the valid one (also above it).
+func c12Foreign(t *rapid.T, o vOpt) vOpt {
+	if o.Kind == "prefix" && rapid.IntRange(0, 2).Draw(t, "foreign-pref") == 0 {
+		o.PrefS = rapid.SampledFrom([]int64{0, 300, 600, 601, 1800, 7200, 86400, 4294967295, min(o.ValidS+1, 4294967295)}).Draw(t, "fpref")
+	}
+	return o
+}
+
 func c12GenRA(t *rapid.T, theirs bool, pool []string) vRA {
 	r := vRA{
 		Hop:   rapid.SampledFrom([]uint8{0, 64, 64, 255}).Draw(t, "hop"),
@@ -520,6 +529,9 @@ func c12GenRA(t *rapid.T, theirs bool, pool []string) vRA {
 	for i, n := 0, nopts; i < n; i++ {
 		kind := rapid.SampledFrom(kinds).Draw(t, "kind")
 		o := c12GenOpt(t, kind, pool)
+		if theirs {
+			o = c12Foreign(t, o)
+		}
 		// in the large mode our own lists are as a configuration allows them:
 		// no two prefixes (or routes) overlap; other routers may send anything
 		overlaps := func(used map[string]bool) bool {
@@ -579,7 +591,7 @@ func c12Gen(t *rapid.T) c12Case {
 				if len(theirs.Opts) > 0 {
 					j := rapid.IntRange(0, len(theirs.Opts)-1).Draw(t, "ecopy")
 					if o := theirs.Opts[j]; o.Kind == "prefix" || o.Kind == "route" {
-						o2 := c12GenOpt(t, o.Kind, pool)
+						o2 := c12Foreign(t, c12GenOpt(t, o.Kind, pool))
 						o2.Prefix = o.Prefix
 						if rapid.Bool().Draw(t, "samepref") {
 							o2.RPref = o.RPref
@@ -603,7 +615,7 @@ func c12Gen(t *rapid.T) c12Case {
 				if len(theirs.Opts) > 0 {
 					j := rapid.IntRange(0, len(theirs.Opts)-1).Draw(t, "eopt")
 					prefix := theirs.Opts[j].Prefix
-					theirs.Opts[j] = c12GenOpt(t, theirs.Opts[j].Kind, pool)
+					theirs.Opts[j] = c12Foreign(t, c12GenOpt(t, theirs.Opts[j].Kind, pool))
 					if prefix != "" && rapid.Bool().Draw(t, "keepprefix") {
 						theirs.Opts[j].Prefix = prefix
 					}
@@ -900,7 +912,7 @@ func c12GenLive(t *rapid.T) c12Live {
 	for _, x := range nets {
 		if rapid.Bool().Draw(t, "theirs-has") {
 			v := rapid.SampledFrom([]int64{600, 1800, 86400}).Draw(t, "tvalid")
-			topts = append(topts, vOpt{Kind: "prefix", Prefix: x, OnLink: true, Auto: true, ValidS: v, PrefS: rapid.SampledFrom([]int64{300, 600, v}).Draw(t, "tpref")})
+			topts = append(topts, vOpt{Kind: "prefix", Prefix: x, OnLink: true, Auto: true, ValidS: v, PrefS: rapid.SampledFrom([]int64{300, 600, v, v + 1, 7200}).Draw(t, "tpref")})
 		}
 	}
 	c.Theirs.Opts = topts
@@ -920,13 +932,13 @@ func c12GenLive(t *rapid.T) c12Live {
 					continue
 				}
 				if (o.Kind == "mtu" || o.Kind == "cp") && rapid.Bool().Draw(t, "changesingle") {
-					o = c12GenOpt(t, o.Kind, c12Prefixes)
+					o = c12Foreign(t, c12GenOpt(t, o.Kind, c12Prefixes))
 				}
 				opts = append(opts, o)
 			}
 			for _, kind := range []string{"mtu", "cp"} {
 				if len(c12Pick(vRA{Opts: opts}, kind)) == 0 && rapid.IntRange(0, 2).Draw(t, "addsingle") == 0 {
-					opts = append(opts, c12GenOpt(t, kind, c12Prefixes))
+					opts = append(opts, c12Foreign(t, c12GenOpt(t, kind, c12Prefixes)))
 				}
 			}
 			r.Opts = opts
